@@ -233,6 +233,7 @@ func runC11(c *Ctx) {
 	c11Search(c)
 	c11Parser(c)
 	c11Compiled(c)
+	c11CompiledRagged(c)
 	c11World(c)
 	c11Find(c)
 	c11Attempts(c)
@@ -1021,6 +1022,88 @@ func c11Compiled(c *Ctx) {
 		if len(ids) != want {
 			r.violate(Violation{Kind: "property", Key: "C11:fork-count:" + cls, What: "a statically mapped stage does not get one fork per index/key combination",
 				Input: map[string]interface{}{"mro": src}, Impl: len(ids), Expect: want})
+		}
+	}
+}
+
+const c11RaggedTemplate = `
+stage ECHO(
+    in  int what,
+    in  int k,
+    out int result,
+    src comp "x",
+)
+
+pipeline INNER(
+    in  %[1]s items,
+    out %[2]s r,
+)
+{
+    map call ECHO(
+        what = split self.items,
+        k    = 1,
+    )
+    return (
+        r = ECHO.result,
+    )
+}
+
+pipeline TOP(
+    out %[3]s r,
+)
+{
+    map call INNER(
+        items = split %[4]s,
+    )
+    return (
+        r = INNER.r,
+    )
+}
+
+call TOP()
+`
+
+// c11CompiledRagged: statically known inner sources whose length / key set differs from one outer
+// fork to the next (including empty and null elements): the forks of the inner stage, as expanded by
+// the real compiler + ForkIdSet.MakeForkIds, must all get their own directory and journal name.
+func c11CompiledRagged(c *Ctx) {
+	r := c.Res
+	type prog struct {
+		innerIn, innerOut, topOut, lit string
+		want                           int
+	}
+	progs := []prog{
+		{"int[]", "int[]", "int[][]", "[[1, 2, 3], [4], []]", -1},
+		{"int[]", "int[]", "int[][]", "[[-1], null]", -1},
+		{"int[]", "int[]", "int[][]", "[[], [], [1, 2]]", -1},
+		{"int[]", "int[]", "int[][]", "[[1, 2, 3, 4, 5, 6, 7, 8, 9, 10, 11], [1], [1, 2]]", -1},
+		{"map<int>", "map<int>", "map<int>[]", `[{"a": 1, "b": 2}, {}, {"a/fork_b": 1}, {"b": 3}]`, -1},
+		{"int[]", "int[]", "map<int[]>", `{"x": [1, 2], "y": [], "x/fork0": [3]}`, -1},
+	}
+	for _, pg := range progs {
+		src := fmt.Sprintf(c11RaggedTemplate, pg.innerIn, pg.innerOut, pg.topOut, pg.lit)
+		ids, err := core.VerifCompiledForkIds(src, "TOP.INNER.ECHO")
+		if err != nil {
+			r.note("compiled ragged nesting %s: %v", pg.lit, err)
+			continue
+		}
+		r.hist("compiled_ragged_nestings")
+		seen := map[string]bool{}
+		jseen := map[string]bool{}
+		for _, id := range ids {
+			r.count("compiled-ragged:"+pg.lit+":"+id, true)
+			jn := core.VerifEncodeJournalName(id)
+			if seen[id] || jseen[jn] {
+				r.violate(Violation{Kind: "property", Key: "C11:compiled-dir-collision:dependent-shapes",
+					What:  "two forks of a compiled stage under outer forks with different (static) inner sources get the same directory or journal name",
+					Input: map[string]interface{}{"mro": src, "stage": "TOP.INNER.ECHO"}, Impl: ids, Expect: "pairwise distinct fork ids",
+					Broken: "forkName_distinct_after_divergence"})
+				break
+			}
+			seen[id], jseen[jn] = true, true
+		}
+		if len(r.Samples) < 8 {
+			r.sample(map[string]interface{}{"source": pg.lit, "fork_ids_of_TOP.INNER.ECHO": ids})
 		}
 	}
 }
